@@ -82,7 +82,15 @@ def _build_cue_variants(inputs):
     from smpl_extract.cuesheet import parse_cue_sheet, BadCueSheet
 
     def summary(text):
-        lines = text.splitlines(keepends=True)
+        # through the real text reader (smpl_extract.actions.parse_text_file), as the tool does
+        import tempfile
+        from smpl_extract.actions import parse_text_file
+        with tempfile.NamedTemporaryFile("w", suffix=".cue", delete=False, newline="") as tf:
+            tf.write(text)
+        try:
+            lines = parse_text_file(tf.name)
+        finally:
+            os.unlink(tf.name)
         try:
             f = parse_cue_sheet(lines)
         except BadCueSheet:
@@ -146,6 +154,14 @@ def _small_cue_variants(tier, seed, shard=(0, 1)):
     rnd.shuffle(combos)
     if tier == "quick":
         combos = combos[:150]
+    # long sheets: the meaning must not depend on how much unrecognised text surrounds it
+    big_header = {"header_extra": [f"REM comment line number {i} with some padding text" for i in range(150)]}
+    many = [{"number": i + 1, "mode": "AUDIO", "title": f"Track {i + 1}", "indices": [[1, i, 0, 0]]} for i in range(30)]
+    if shard[0] == 0:
+        yield {"tracks": sheets[1], "style": big_header}
+        yield {"tracks": many, "style": {"track_extra": ['PERFORMER "Somebody with a long name"', "FLAGS DCP", "ISRC ABCDE1234567",
+                                                         'SONGWRITER "Another long name here"', "REM x", "REM y"]}}
+        yield {"tracks": many, "style": {"blank_lines": 3, "lead": "      ", "trail": "      "}}
     k = 0
     for sheet in sheets:
         for combo in combos:
